@@ -107,6 +107,9 @@ func c13Request(kind string, secret []byte) *pb.C2SWrapper {
 	if kind == "v6fail" {
 		gen = 2
 	}
+	if kind == "unkgen" {
+		gen = 77 // a generation the loaded subnet file does not list (a ClientConf that reached clients before the registrar was told)
+	}
 	return &pb.C2SWrapper{
 		SharedSecret: secret,
 		RegistrationPayload: &pb.ClientToStation{
@@ -219,7 +222,7 @@ func TestVerifC13Schedules(t *testing.T) {
 	defer rec.Close()
 	env := c13Setup(t)
 	rng := kit.Rand("c13")
-	kinds := []string{"v4", "v6", "dual", "v6fail"}
+	kinds := []string{"v4", "v6", "dual", "v6fail", "unkgen"}
 
 	// the yield callback parks the calling request (identified by goroutine id)
 	var mu sync.Mutex
@@ -400,7 +403,10 @@ func TestVerifC13Schedules(t *testing.T) {
 			}
 		} else {
 			for _, tk := range reqs {
-				if tk.kind == "v6fail" {
+				if tk.kind == "unkgen" && tk.panic == "" {
+					continue // whether and how an unknown generation is answered is not this property's subject: it must complete
+				}
+				if tk.kind == "v6fail" && tk.panic == "" {
 					if tk.err == nil {
 						rec.Violation("unanswerable-request-succeeded", "a request for a generation without IPv6 subnets got an IPv6 phantom", map[string]interface{}{"schedule": label})
 					}
@@ -504,7 +510,7 @@ func TestVerifC13Stress(t *testing.T) {
 	var progress atomic.Int64
 	var wg sync.WaitGroup
 	var doneFlag atomic.Bool
-	kinds := []string{"v4", "v6", "dual", "v6fail"}
+	kinds := []string{"v4", "v6", "dual", "v6fail", "unkgen"}
 	var gids sync.Map
 	for g := 0; g < requesters; g++ {
 		wg.Add(1)
@@ -513,7 +519,7 @@ func TestVerifC13Stress(t *testing.T) {
 			gids.Store(kit.GoID(), fmt.Sprintf("requester%d", g))
 			rng := kit.Rand(fmt.Sprint("c13-stress-", g))
 			for i := 0; i < iters; i++ {
-				kind := kinds[(i+g)%4]
+				kind := kinds[(i+g)%len(kinds)]
 				secret := make([]byte, 32)
 				rng.Read(secret)
 				var resp *pb.RegistrationResponse
@@ -529,6 +535,8 @@ func TestVerifC13Stress(t *testing.T) {
 				}()
 				if pan != "" {
 					rec.Violation("request-panicked:"+kind, "a request panicked while subnets were being reloaded", map[string]interface{}{"panic": pan, "kind": kind})
+				} else if kind == "unkgen" {
+					rec.Distinct("nontrivial", kind, "completed")
 				} else if kind == "v6fail" {
 					if err == nil {
 						rec.Violation("unanswerable-request-succeeded", "a request for a generation without IPv6 subnets got an IPv6 phantom", nil)
